@@ -956,8 +956,76 @@ pub fn scen_tap_probes(m: &Model, setup: &Setup, iterate_k: usize, probes: usize
             }
         }
     }
+    // runs of the recursive minimiser: exact correspondence with Model/RecMin.lean. Predicates are
+    // opaque there, so each distinct predicate of a run gets a number.
+    {
+        let mut ids: std::collections::HashMap<Predicate, usize> = std::collections::HashMap::new();
+        let mut head = String::new();
+        let mut inits = String::new();
+        let mut n_init = 0;
+        let mut visits = String::new();
+        let mut n_visit = 0;
+        let mut emitted = 0;
+        let mut open = false;
+        for r in &records {
+            if r.kind == TapKind::RecMinIn {
+                ids.clear();
+            }
+            let mut id = |p: Predicate| -> usize {
+                let n = ids.len();
+                *ids.entry(p).or_insert(n)
+            };
+            match r.kind {
+                TapKind::RecMinIn => {
+                    for p in &r.reason {
+                        let _ = id(*p);
+                    }
+                    head = format!("recmin {} {}", r.level, r.trail_position);
+                    inits.clear();
+                    visits.clear();
+                    n_init = 0;
+                    n_visit = 0;
+                    open = true;
+                }
+                TapKind::RecMinInit if open => {
+                    inits.push_str(&format!(" {} {} {}", id(r.predicate.unwrap()), r.level, r.trail_position));
+                    n_init += 1;
+                }
+                TapKind::RecMinVisit if open => {
+                    visits.push_str(&format!(
+                        " {} {} {} {} {}",
+                        id(r.predicate.unwrap()),
+                        r.level,
+                        r.trail_position,
+                        r.tag.unwrap_or(0),
+                        r.reason.len()
+                    ));
+                    for p in &r.reason {
+                        visits.push_str(&format!(" {}", id(*p)));
+                    }
+                    n_visit += 1;
+                }
+                TapKind::RecMinOut if open => {
+                    open = false;
+                    let mut o = format!("{}", r.reason.len());
+                    for p in &r.reason {
+                        o.push_str(&format!(" {}", id(*p)));
+                    }
+                    let line = format!("{} {}{} :: {}{} :: {}", head, n_init, inits, n_visit, visits, o);
+                    if n_visit <= 400 && emitted < 200 && seen.insert(line.clone()) {
+                        emitted += 1;
+                        out.push(line);
+                    }
+                }
+                _ => {}
+            }
+        }
+    }
     for r in &records {
-        if matches!(r.kind, TapKind::MinimiseIn | TapKind::MinimiseOut) {
+        if matches!(
+            r.kind,
+            TapKind::MinimiseIn | TapKind::MinimiseOut | TapKind::RecMinIn | TapKind::RecMinInit | TapKind::RecMinVisit | TapKind::RecMinOut
+        ) {
             continue;
         }
         // blocking clauses added by the iterator are not part of `m`: inferences of the nogood
@@ -982,7 +1050,7 @@ pub fn scen_tap_probes(m: &Model, setup: &Setup, iterate_k: usize, probes: usize
             TapKind::Conflict => "conflict",
             TapKind::AnalysisReason => "analysis",
             TapKind::Learned => "learned",
-            TapKind::MinimiseIn | TapKind::MinimiseOut => unreachable!(),
+            _ => unreachable!(),
         };
         counts[r.kind as usize] += 1;
         if !r.reason_all_true {
